@@ -524,7 +524,30 @@ def seq_targets(stmts, sig, var):
                 seq_targets(s["others"], sig, var)
 
 
-COMMENT = re.compile(r"^\s*-- CONCURRENT BLOCK \((.*)\)\s*$")
+# the compiler separates the concurrent statements of different contexts by a comment line; its wording is the
+# compiler's choice (today `-- CONCURRENT BLOCK (<name>)`), so any comment line starts a new group
+COMMENT = re.compile(r"^\s*--\s*(.*?)\s*$")
+
+
+def _plain_copy(st):
+    """concurrent assignment  name <= name;  (no condition, no expression)"""
+    vals = [v for kk, v in st.items() if kk not in ("stmt", "line", "target")]
+    flat = []
+
+    def walk(o):
+        if isinstance(o, tuple) and o and isinstance(o[0], str):
+            flat.append(o)
+            for x in o[1:]:
+                walk(x)
+        elif isinstance(o, (list, tuple)):
+            for x in o:
+                walk(x)
+        elif isinstance(o, dict):
+            for x in o.values():
+                walk(x)
+
+    walk(vals)
+    return len(flat) == 1 and flat[0][0] == "name"
 
 
 def certificate(text, entity="W"):
@@ -548,9 +571,12 @@ def certificate(text, entity="W"):
             cm = [c for c in comments if c[0] <= st["line"]]
             key = (cm[-1] if cm else None)
             if region is None or region["key"] != key:
-                region = {"kind": "block", "label": key[1] if key else None, "key": key, "targets": set(), "names": set(), "vars": set()}
+                region = {"kind": "block", "label": key[1] if key else None, "key": key, "targets": set(), "names": set(), "vars": set(),
+                          "plain": True}
                 units.append(region)
             region["targets"].add(base_name(st["target"]).lower())
+            if k != "cassign" or st["target"][0] != "name" or not _plain_copy(st):
+                region["plain"] = False
             names_in({kk: v for kk, v in st.items() if kk not in ("stmt", "line")}, region["names"])
             continue
         region = None
@@ -603,8 +629,13 @@ def certificate(text, entity="W"):
             desc = ", ".join(f"{units[i]['kind']} {units[i]['label']}" for i in us)
             problems.append(("multiple-drivers", t, f"signal {t} has {len(us)} drivers: {desc}"))
     counts = {}
+    out_ports = {p["name"].lower() for p in ent["ports"] if p["dir"] in ("out", "buffer")}
+    sig_names = {d["name"].lower() for d in arch["decls"] if d.get("decl") == "signal"}
     for i, u in enumerate(units):
-        if u["kind"] == "block" and u["label"] == "buffer assignment":
+        # the block that copies the internal buffer signals to the output ports (recognised by its shape, not by the
+        # wording of its comment): every statement is  <output port> <= <architecture signal>;
+        if u["kind"] == "block" and u.get("plain") and u["targets"] <= out_ports and u["names"] - u["targets"] <= sig_names \
+                and len(u["names"] - u["targets"]) == len(u["targets"]):
             continue
         for t in u["targets"]:
             counts[("sig", t)] = counts.get(("sig", t), 0) + 1
